@@ -15,13 +15,17 @@ import (
 	"github.com/shutter-network/shutter/shlib/puredkg"
 	"github.com/shutter-network/shutter/shlib/shcrypto"
 
+	collatordb "github.com/shutter-network/rolling-shutter/rolling-shutter/chainobserver/db/collator"
 	obskeyper "github.com/shutter-network/rolling-shutter/rolling-shutter/chainobserver/db/keyper"
 	"github.com/shutter-network/rolling-shutter/rolling-shutter/gnosisaccessnode"
 	"github.com/shutter-network/rolling-shutter/rolling-shutter/keyper/database"
 	"github.com/shutter-network/rolling-shutter/rolling-shutter/keyper/epochkghandler"
 	"github.com/shutter-network/rolling-shutter/rolling-shutter/keyperimpl/gnosis"
 	gnosisdb "github.com/shutter-network/rolling-shutter/rolling-shutter/keyperimpl/gnosis/database"
+	"github.com/shutter-network/rolling-shutter/rolling-shutter/keyperimpl/primev"
+	primevdb "github.com/shutter-network/rolling-shutter/rolling-shutter/keyperimpl/primev/database"
 	"github.com/shutter-network/rolling-shutter/rolling-shutter/keyperimpl/shutterservice"
+	"github.com/shutter-network/rolling-shutter/rolling-shutter/keyperimpl/snapshot"
 	servicedb "github.com/shutter-network/rolling-shutter/rolling-shutter/keyperimpl/shutterservice/database"
 	"github.com/shutter-network/rolling-shutter/rolling-shutter/medley/broker"
 	"github.com/shutter-network/rolling-shutter/rolling-shutter/medley/db"
@@ -60,9 +64,11 @@ const (
 	flCore flavour = iota
 	flGnosis
 	flService
+	flPrimev   // core flavour + the Primev commitment handler
+	flSnapshot // core flavour + the snapshot decryption-trigger handler
 )
 
-func (f flavour) String() string { return [...]string{"core", "gnosis", "service"}[f] }
+func (f flavour) String() string { return [...]string{"core", "gnosis", "service", "primev", "snapshot"}[f] }
 
 type dbFaults struct {
 	stmtErr  int // permille per request
@@ -188,6 +194,10 @@ func (w *worldC) addNode(name string, idx int, state dkgState, extra func(nd *cN
 		def = gnosisdb.Definition
 	case flService:
 		def = servicedb.Definition
+	case flPrimev:
+		def = primevdb.Definition
+	case flSnapshot:
+		def = db.NewAggregateDefinition("snapshotkeyper", database.Definition, collatordb.Definition)
 	}
 	if err := db.InitDB(nd.ctx, nd.pool, def.Name()+"-sim", def); err != nil {
 		r.InfraFail("InitDB: %v", err)
@@ -211,6 +221,20 @@ func (w *worldC) addNode(name string, idx int, state dkgState, extra func(nd *cN
 	switch w.fl {
 	case flCore:
 		nd.msg.AddMessageHandler(coreHandlers...)
+	case flPrimev:
+		// primev.Keyper.Start: the commitment handler is registered on the messaging first,
+		// then the core registers its handlers
+		pcfg := primev.NewConfig()
+		pcfg.InstanceID = cInstanceID
+		nd.msg.AddMessageHandler(primev.VerifNewCommitmentHandler(pcfg, nd.trigger, nd.pool))
+		nd.msg.AddMessageHandler(coreHandlers...)
+	case flSnapshot:
+		// snapshot keyper: core handlers, then the trigger handler via keyper.WithMessageHandler
+		nd.msg.AddMessageHandler(coreHandlers...)
+		nd.msg.AddMessageHandler(snapshot.NewDecryptionTriggerHandler(snapshot.Config{InstanceID: cInstanceID}, nd.pool, nd.trigger))
+		if err := collatordb.New(nd.pool).InsertChainCollator(nd.ctx, collatordb.InsertChainCollatorParams{ActivationBlockNumber: 0, Collator: shdb.EncodeAddress(simtm.DetKey("collator").Addr)}); err != nil {
+			r.InfraFail("InsertChainCollator: %v", err)
+		}
 	case flGnosis:
 		cfg := gnosis.NewConfig()
 		cfg.InstanceID = cInstanceID
@@ -249,6 +273,12 @@ func (w *worldC) addNode(name string, idx int, state dkgState, extra func(nd *cN
 	}
 	nd.nn = w.net.Join(name, nd.ctx, nd.msg)
 	nd.group, nd.deferFn = service.RunBackground(nd.ctx, ksh, service.Function{Func: func(ctx context.Context, _ service.Runner) error {
+		// the real loop has no recover: a panic in a handler kills the keyper process
+		defer func() {
+			if e := recover(); e != nil {
+				r.FailNoAbort("handler-panic", w.fl.String(), "message handler of %s panicked (this kills the keyper process): %v", nd.name, e)
+			}
+		}()
 		return nd.msg.VerifRunHandleMessages(ctx)
 	}})
 	w.nodes = append(w.nodes, nd)
